@@ -44,40 +44,79 @@ def extract_writer(p: Program, rep: Report, rule: str) -> CookieWriter:
         raise Undecided(f"{rule}: Cookie._quote no longer has exactly one unquoted and one quoted return path")
     # fast path guard: <legal predicate>(value) truthy
     pos = [f for f, t in fast[0].facts if t]
-    if len(pos) != 1 or pos[0][0] != "call" or pos[0][2] != (("param", "value"),) or pos[0][1][0] != "global":
+    if len(pos) != 1 or pos[0][0] != "call" or pos[0][2] != (("param", "value"),) or pos[0][1][0] not in ("global", "func"):
         raise Undecided(f"{rule}: unrecognised guard of the unquoted path: {fast[0].fact_text()}")
+    # ---- resolve the predicate to (pattern, method): module constant `re.compile(P).<m>` or a helper function
+    pattern = method = None
+    pred_loc = where(quote)
     pred_name = pos[0][1][1].split(":")[-1]
-    if pred_name not in mod.constants:
-        raise Undecided(f"{rule}: guard predicate {pred_name} is not a module constant")
-    pe = mod.constants[pred_name]
-    if not (isinstance(pe, ast.Attribute) and pe.attr == "fullmatch" and isinstance(pe.value, ast.Call) and p.resolve_dotted(mod, pe.value.func) == ("ext", "re.compile") and len(pe.value.args) == 1):
-        if isinstance(pe, ast.Attribute) and pe.attr in ("match", "search"):
-            rep.violation(rule, construct(f"{DS}:{pred_name}", text=ast.unparse(pe)[-40:]), f"{mod.relpath}:{pe.lineno}",
-                          f"the unquoted path is guarded by .{pe.attr}() instead of .fullmatch(): a value with a legal prefix/substring is emitted raw")
-            raise Undecided(f"{rule}: cannot continue the table check with a non-fullmatch guard")
-        raise Undecided(f"{rule}: guard predicate {pred_name} is not re.compile(<const>).fullmatch")
-    try:
-        pattern = F.fold(mod, pe.value.args[0])
-    except NotConst as e:
-        raise Undecided(f"{rule}: legal-character pattern is not a foldable constant ({e})")
+
+    def compiled_pattern(e: ast.expr):
+        """re.compile(<const>) or a module constant holding one -> folded pattern"""
+        if isinstance(e, ast.Name) and e.id in mod.constants:
+            e = mod.constants[e.id]
+        if isinstance(e, ast.Call) and p.resolve_dotted(mod, e.func) == ("ext", "re.compile") and e.args:
+            try:
+                return F.fold(mod, e.args[0])
+            except NotConst as ex:
+                raise Undecided(f"{rule}: legal-character pattern is not a foldable constant ({ex})")
+        return None
+
+    if pos[0][1][0] == "global" and pred_name in mod.constants:
+        pe = mod.constants[pred_name]
+        pred_loc = f"{mod.relpath}:{pe.lineno}"
+        if isinstance(pe, ast.Attribute) and pe.attr in ("fullmatch", "match", "search"):
+            pattern, method = compiled_pattern(pe.value), pe.attr
+    elif pos[0][1][0] == "func":
+        hf = p.func(pos[0][1][1])
+        pred_loc = hf.loc
+        rep.analysed(hf.fq)
+        for n in ast.walk(hf.node):
+            if isinstance(n, ast.Call) and isinstance(n.func, ast.Attribute) and n.func.attr in ("fullmatch", "match", "search") and n.args and isinstance(n.args[0], ast.Name) and n.args[0].id == hf.params[0]:
+                pattern, method = compiled_pattern(n.func.value), n.func.attr
+            if isinstance(n, ast.Call) and isinstance(n.func, ast.Attribute) and p.resolve_dotted(mod, n.func) in (("ext", "re.fullmatch"), ("ext", "re.match"), ("ext", "re.search")) and len(n.args) >= 2:
+                try:
+                    pattern, method = F.fold(mod, n.args[0]), n.func.attr
+                except NotConst:
+                    pass
+    if pattern is None or method is None:
+        raise Undecided(f"{rule}: the guard of the unquoted path ({show(pos[0])[:60]}) is not a compiled-regex fullmatch/match/search of a constant pattern")
     if not isinstance(pattern, str):
         raise Undecided(f"{rule}: legal-character pattern is not a str")
-    # decide the accepted character set exactly: c is legal  <=>  the one-char string c is in L(pattern)
+    # ---- the language of strings that take the unquoted path, anchors and method semantics included
+    core = pattern
+    if core.startswith("^"):
+        core = core[1:]
+    elif core.startswith("\\A"):
+        core = core[2:]
+    dollar = zed = False
+    if core.endswith("$") and not core.endswith("\\$"):
+        core, dollar = core[:-1], True
+    elif core.endswith("\\Z"):
+        core, zed = core[:-2], True
+    ANY = "[\\x00-\\U0010ffff]*"
+    if method == "fullmatch":
+        eff = f"(?:{core})"
+    elif method == "match":
+        eff = f"(?:{core})" + ("\\n?" if dollar else ("" if zed else ANY))
+    else:
+        eff = ANY + f"(?:{core})" + ("\\n?" if dollar else ("" if zed else ANY))
     try:
-        r = rx.Regex(pattern)
+        r = rx.Regex(eff)
         al = rx.alphabet_for([r])
         d = rx.compile_dfa(r, al)
         legal_chars = [c for c in al if d.accepts([c])]
-        # L == legal+ ?
-        ref = rx.Regex("[" + "".join("\\x%02x" % c if c < 256 else "\\u%04x" % c for c in legal_chars) + "]+") if legal_chars else None
-        if ref is None:
-            raise Undecided(f"{rule}: legal pattern accepts no single character")
+        if not legal_chars:
+            raise Undecided(f"{rule}: the unquoted-path predicate accepts no single character")
+        ref = rx.Regex("[" + "".join("\\x%02x" % c if c < 256 else "\\u%04x" % c for c in legal_chars) + "]+")
         d2 = rx.compile_dfa(ref, al)
-        w1, w2 = rx.difference_witness(d, d2), rx.difference_witness(d2, d)
-        if w1 is not None or w2 is not None:
-            raise Undecided(f"{rule}: legal pattern {pattern!r} is not of the form [set]+ (witness {rx.show(w1 or w2)})")
-        if d.accepts_empty():
-            raise Undecided(f"{rule}: legal pattern accepts the empty string")
+        w1 = rx.difference_witness(d, d2)
+        if w1 is not None or d.accepts_empty():
+            wit = rx.show(w1) if w1 is not None else "''"
+            rep.violation(rule, construct(f"{DS}:{pred_name}", text=f"{method}({pattern[:40]!r})"), pred_loc,
+                          f"the unquoted cookie path is taken for {wit}: the predicate `{method}` of {pattern[:50]!r} accepts more than non-empty strings over its own character set "
+                          "(a value such as a legal token followed by a line feed is emitted raw)", witness=wit)
+            raise Undecided(f"{rule}: table check not continued with a leaky unquoted-path predicate")
     except rx.Unsupported as e:
         raise Undecided(f"{rule}: {e}")
     legal = "".join(chr(c) for c in legal_chars)
@@ -94,7 +133,7 @@ def extract_writer(p: Program, rep: Report, rule: str) -> CookieWriter:
         raise Undecided(f"{rule}: translator table is not a foldable constant ({e})")
     if not isinstance(table, dict) or not all(isinstance(k, int) and isinstance(x, str) for k, x in table.items()):
         raise Undecided(f"{rule}: translator table is not a dict[int, str]")
-    legal_name = "_cookie_legal_chars" if "_cookie_legal_chars" in mod.constants else pred_name
+    legal_name = "_cookie_legal_chars" if "_cookie_legal_chars" in mod.constants else (pred_name if pred_name in mod.constants else next(iter(mod.constants)))
     return CookieWriter(legal, table, quote, legal_name, tname,
                         f"{mod.relpath}:{mod.constants[tname].lineno}", f"{mod.relpath}:{mod.constants[legal_name].lineno}")
 
